@@ -136,6 +136,17 @@ def check(ctx):
         det = ""
         for (rb, rv) in rets:
             e = strip_casts(dg.local(0)) if rv[0] != "Bin" else ("bin", rv[1], dg.expr(rv[2]), dg.expr(rv[3]))
+            if rv[0] == "Un" and rv[1] == "Not": e = ("un", "Not", dg.expr(rv[2]))
+            # `== 0`, `!(x > 0)`, `x <= 0`, `x < 1` are one test
+            neg_ = False
+            while e[0] == "un" and e[1] == "Not": e = strip_casts(e[2]); neg_ = not neg_
+            if e[0] == "bin":
+                a_, b_ = strip_casts(e[2]), strip_casts(e[3])
+                if neg_ and e[1] == "Gt" and b_ == ("const", 0): e = ("bin", "Eq", e[2], e[3])
+                elif neg_ and e[1] == "Lt" and a_ == ("const", 0): e = ("bin", "Eq", e[3], e[2])
+                elif neg_ and e[1] == "Ne" and ("const", 0) in (a_, b_): e = ("bin", "Eq", e[2], e[3])
+                elif not neg_ and e[1] == "Le" and b_ == ("const", 0): e = ("bin", "Eq", e[2], e[3])
+                elif not neg_ and e[1] == "Lt" and b_ == ("const", 1): e = ("bin", "Eq", e[2], ("const", 0))
             det = show(e)[:120]
             good = e[0] == "bin" and e[1] == "Eq" and ("const", 0) in (strip_casts(e[2]), strip_casts(e[3])) and body.dominates(ge[0][0], rb) if ge else False
             if good:
@@ -322,7 +333,9 @@ def check_multi_pending_counts(ctx):
         ctx.ob("R06.7", f"{k}|walks-the-live-listeners", ok_s and n_sent >= 1, site, "the walk over the live list continues on listener ids and stops only at the sentinel" if ok_s and n_sent else (why or "no sentinel test found"))
         step_in_loop = any(c.get("fname") == "next" and util.in_loop(body, b) for (b, c) in body.calls)      # the iterator step of a `for` loop is not an aggregator
         agg_bad = [x for x in names if x in ("min", "min_by", "min_by_key", "sum", "product", "last", "nth") or (x == "next" and not step_in_loop)]
-        ctx.ob("R06.7", f"{k}|aggregates-with-max", ("max" in names or _running_max(body, dg)) and not agg_bad, site, f"aggregation through {[x for x in names if x in ('max', 'fold', 'max_by', 'max_by_key')] or 'a loop'}" + (f"; unexpected {agg_bad}" if agg_bad else ""))
+        kid_names = [blk["term"][1].get("fname") for g in kids for blk in g["blocks"] if blk["term"][0] == "Call"]
+        fold_max = "fold" in names and "max" in kid_names and not any(x in kid_names for x in ("min", "wrapping_add", "saturating_add"))      # `.fold(0, |m, x| m.max(x))`
+        ctx.ob("R06.7", f"{k}|aggregates-with-max", ("max" in names or fold_max or _running_max(body, dg)) and not agg_bad, site, f"aggregation through {[x for x in names if x in ('max', 'fold', 'max_by', 'max_by_key')] or 'a loop'}" + (f"; unexpected {agg_bad}" if agg_bad else ""))
         # the queue read belongs to the id being visited
         ok_q = True
         for g in kids + [f]:
